@@ -138,12 +138,12 @@ func replayTestSource(verif, repo, pkgRel, src string) int {
 	ovb, _ := json.Marshal(map[string]interface{}{"Replace": repl})
 	ovf := filepath.Join(work, "overlay.json")
 	os.WriteFile(ovf, ovb, 0o644)
-	cmd := exec.Command("go", "test", "-vet=off", "-count=1", "-run", "^TestVerifC24Replay$", "-v", "-overlay", ovf, "./"+pkgRel)
+	cmd := exec.Command("go", "test", "-vet=off", "-count=1", "-run", "^TestVerifC2[45]Replay$", "-v", "-overlay", ovf, "./"+pkgRel)
 	cmd.Dir = repo
 	cmd.Env = sym.GoEnv()
 	out, _ := cmd.CombinedOutput()
 	fmt.Print(string(out))
-	if strings.Contains(string(out), "VERIF-C24 MISMATCH") || strings.Contains(string(out), "panic:") {
+	if strings.Contains(string(out), "VERIF-C24 MISMATCH") || strings.Contains(string(out), "VERIF-C25 MISMATCH") || strings.Contains(string(out), "panic:") {
 		return 1
 	}
 	return 0
